@@ -249,6 +249,10 @@ func finish(testCode int) int {
 	regMu.Lock()
 	defer regMu.Unlock()
 	replayMode := os.Getenv("VERIF_REPLAY") != ""
+	if c := os.Getenv("VERIF_CHILD"); c != "" {
+		fmt.Println("child process: section", c, "was never reached")
+		return 3
+	}
 
 	known := knownKeys
 
